@@ -347,6 +347,9 @@ def run_property(pid, units, validate_ops, selftests, bounds, assumptions, uncov
         if r.get('cex'):
             if r['cex']['case'].get('kind') == 'pair':
                 replay_pair(rep, pid, name, r['cex'])
+            elif r['cex']['case'].get('kind') in ('table', 'freeindex'):
+                import printcore
+                printcore.replay_print(rep, pid, name, r['cex'])
             elif r['cex']['case'].get('kind') == 'parse':
                 import c08
                 c08.replay_parse(rep, pid, name, r['cex'])
